@@ -5,7 +5,7 @@ from pipefam import *
 GEN = 'C10'
 MODEL_FN = 'Model/Packet.v:parse_packet (run_parser, next_etype, next_proto, parse_loop)'
 RULE = ('stream full: frames of the layered model (Ethernet, 0..2 VLAN tags with any priority / DEI bits, 0..4 MPLS labels > 15, IPv4|IPv6 with optional '
-        'routing(type 4, 0..4 segments)/fragment header, TCP|UDP|ICMP|ICMPv6|other, tunnels GRE / GRE+Ethernet / IP-in-IP '
+        'routing(type 4, 0..4 segments)/fragment header, TCP (data offset 5..15: 0..10 option words)|UDP|ICMP|ICMPv6|other, tunnels GRE / GRE+Ethernet / IP-in-IP '
         'with an inner stack) with arbitrary field values, complete capture: implementation == Spec/Frame.v ref_frame; '
         'cuts: EVERY capture length 0..len of such frames: implementation == model, and every field the implementation '
         'reports equals the complete frame\'s value or is absent (repeated fields: a prefix) -- etype and vlan_id excepted, '
